@@ -55,7 +55,10 @@ contract(D + '::Driver.get_constraint_values', ['C22'],
              # times the constraint's scaler when driver scaling is requested
              "implies('c' in result, len(result['c']) == n)",
              "implies('c' in result, all(approx(result['c'][i], (%s) * (%s if driver_scaling else 1)) for i in range(n)))" % (
-                 DIST.replace('old_val(i)', "ghost('mv')[a + i]"), SCL)],
+                 DIST.replace('old_val(i)', "ghost('mv')[a + i]"), SCL),
+             # the caller owns the reported arrays: a later call (which refills the driver's shared constraint vector) must not
+             # change them (Driver._compute_con_viol concatenates the results of two calls)
+             "implies('c' in result, not shares_memory(result['c'], self._vectors['constraint']._data))"],
          modifies=["self._vectors['constraint']._data", "self._vectors['constraint']._driver_scaling"],
          inline={'filter_by_meta', '__getitem__', '__setitem__', '__iter__', 'driver_scaling',
                  'apply_constraint_scaling', '_apply_vec_scaling'},
@@ -146,5 +149,6 @@ def viol_sampler(rng):
 for _c in REGISTRY[D + '::Driver.get_constraint_values']:
     _c.native = native_driver
     _c.sampler = viol_sampler
-    _c.canaries = [('lower violation measured from the upper bound', ('np.where(con_val < lower, con_val - lower,', 'np.where(con_val < lower, con_val - upper,'), 'post'),
+    _c.canaries = [('reported array is a view of the shared constraint vector', ('con_dict[name] = con_vec[name].copy()', 'con_dict[name] = con_vec[name]'), 'post'),
+                   ('lower violation measured from the upper bound', ('np.where(con_val < lower, con_val - lower,', 'np.where(con_val < lower, con_val - upper,'), 'post'),
                    ('satisfied elements keep their value', ('con_val - upper, 0.0))', 'con_val - upper, con_val))'), 'post'), ('driver scaling adds nothing', ('con_val *= scaler', 'con_val *= 1.0'), 'post')]
